@@ -28,6 +28,10 @@ def scenario(run, e4, sc):
     settings = {"timeout": TIMEOUT, "graceful_timeout": 2}
     if wc == "gthread":
         settings["threads"] = 3
+    if sc["kind"] == "healthy-long-retired":
+        settings["graceful_timeout"] = 5 * TIMEOUT      # the retired worker may finish its request
+    if sc["kind"] == "healthy-idle-keepalive":
+        settings["keepalive"] = 6 * TIMEOUT             # a parked keep-alive connection outlives the worker timeout
     srv = e4.Server("c11", worker_class=wc, workers=2, settings=settings, bind="tcp")
     lag = e4.LagProbe()
     lag.start()
@@ -59,6 +63,34 @@ def scenario(run, e4, sc):
                         time.sleep(rng.choice([0.1, 0.3, 0.45, 0.6]) * TIMEOUT)
                         e4.request(srv.addr, "/sleep/%.1f" % (0.7 * TIMEOUT), timeout=10)
                 threads = [threading.Thread(target=mixed, args=(i,), daemon=True) for i in range(2)]
+            elif kind == "healthy-long-retired":
+                # a cooperative request of 3 x timeout is in flight when its worker is retired (reload / TTOU) while the master
+                # runs on: finishing it within graceful_timeout is not a hang
+                res = {}
+
+                def long_req():
+                    res["r"] = e4.request(srv.addr, "/sleep/%.1f" % (3 * TIMEOUT), timeout=25)
+
+                def retire():
+                    time.sleep(0.5)
+                    srv.signal(signal.SIGHUP)
+                threads = [threading.Thread(target=long_req, daemon=True), threading.Thread(target=retire, daemon=True)]
+            elif kind == "healthy-idle-keepalive":
+                # one client keeps an idle keep-alive connection open (keepalive > timeout); nothing else happens for 3 x timeout;
+                # then the same connection is used again
+                res = {}
+
+                def idle_ka():
+                    try:
+                        c = e4.connect(srv.addr, 5)
+                        r1 = e4.request(srv.addr, "/pid", sock=c, close=False, timeout=8)
+                        time.sleep(3 * TIMEOUT)
+                        r2 = e4.request(srv.addr, "/pid", sock=c, close=False, timeout=8)
+                        c.close()
+                        res["r1"], res["r2"] = r1, r2
+                    except OSError as e:
+                        res["err"] = repr(e)
+                threads = [threading.Thread(target=idle_ka, daemon=True)]
             else:   # healthy-long: one request of 3 x timeout inside a handler of a concurrent worker
                 res = {}
 
@@ -69,7 +101,15 @@ def scenario(run, e4, sc):
                 t.start()
             for t in threads:
                 t.join(30)
-            if kind == "healthy-long":
+            if kind == "healthy-idle-keepalive":
+                r1, r2 = res.get("r1"), res.get("r2")
+                if not r1 or r1["outcome"] != "ok":
+                    return v, "first request on the keep-alive connection failed: %s" % (res.get("err") or (r1 and r1["outcome"])), info
+                if not r2 or r2["outcome"] != "ok" or e4.body_of(r2["data"]).split(b" ")[0] != e4.body_of(r1["data"]).split(b" ")[0]:
+                    v.append(("idle-keepalive-connection-lost", "%s (keepalive %d, timeout %d): after %d s idle the parked connection gave %s "
+                              "(first: %r, then: %r)" % (wc, 6 * TIMEOUT, TIMEOUT, 3 * TIMEOUT, r2 and r2["outcome"],
+                                                         e4.body_of(r1["data"])[:20], r2 and e4.body_of(r2["data"])[:20])))
+            if kind in ("healthy-long", "healthy-long-retired"):
                 r = res.get("r")
                 if not r or r["outcome"] != "ok":
                     v.append(("long-request-in-concurrent-worker-cut", "a %d s request on %s (timeout %d) -> %s" % (
@@ -79,7 +119,7 @@ def scenario(run, e4, sc):
             info["max_lag"] = round(maxlag, 3)
             w1 = srv.worker_pids()
             log = srv.error_log()
-            if "WORKER TIMEOUT" in log or set(w1) != set(w0):
+            if "WORKER TIMEOUT" in log or (set(w1) != set(w0) and kind != "healthy-long-retired"):
                 if maxlag > (0.25 if kind == "healthy-mixed" else 0.5):
                     return v, "healthy worker killed but scheduling lag was %.2f s" % maxlag, info
                 v.append(("healthy-worker-killed/" + kind, "%s worker set changed %s -> %s, WORKER TIMEOUT in log: %s (timeout %d s, pattern %s)" % (
@@ -176,11 +216,15 @@ def plan(run, tier, seed):
              ("sync", "healthy-idle"), ("gthread", "healthy-idle"), ("gevent", "healthy-idle"), ("eventlet", "healthy-idle"),
              ("sync", "healthy-busy"), ("gthread", "healthy-busy"), ("gevent", "healthy-busy"), ("eventlet", "healthy-busy"),
              ("gthread", "healthy-long"), ("gevent", "healthy-long"), ("eventlet", "healthy-long"),
-             ("sync", "healthy-mixed"), ("sync", "block-then-hup"), ("sync", "block-then-ttou")]
+             ("sync", "healthy-mixed"), ("sync", "block-then-hup"), ("sync", "block-then-ttou"),
+             ("gevent", "healthy-long-retired"), ("gthread", "healthy-long-retired"), ("eventlet", "healthy-long-retired"),
+             ("gthread", "healthy-idle-keepalive"), ("gevent", "healthy-idle-keepalive"), ("eventlet", "healthy-idle-keepalive")]
     if tier == "quick":
         # every hang kind and every healthy pattern once per run, classes rotated by the seed
+        rot = ["gevent", "gthread", "eventlet"]
         pick = [c for i, c in enumerate(cells) if c[1] in ("block", "block-ignabrt", "healthy-mixed", "block-then-hup")
-                or (i + seed) % 2 == 0]
+                or (c[1] in ("healthy-long-retired", "healthy-idle-keepalive") and c[0] in (rot[seed % 3], rot[(seed + 1) % 3]))
+                or (c[1] not in ("healthy-long-retired", "healthy-idle-keepalive") and (i + seed) % 2 == 0)]
         cells = pick
     return [{"kind": "live", "scenario": {"class": c, "kind": k, "idx": i, "seed": seed}, "seed": seed, "tier": tier}
             for i, (c, k) in enumerate(cells)]
